@@ -355,7 +355,7 @@ def replay_case(prop, path):
     asm = progs.get_asm()
     lines = [progs.Ln.from_json(j) for j in c['lines']]
     r = evaluate(asm, lines)
-    mine = [(p, m) for p, m in r['problems'] if p in OWN[prop]]
+    mine = [(pr[0], pr[1]) for pr in r['problems'] if pr[0] in OWN[prop]]
     print('status:', r['status'])
     for p, m in mine:
         print(' ', p, m)
